@@ -691,6 +691,47 @@ theorem startsAt_eq' (s pat : Txt) (i : Nat) (hp : 0 < pat.size) :
       simp only [Array.length_toList] at h0; omega
     | cons a as => rfl
 
+/-! ## the class test `class ?= ?"IntervalTier"` -/
+
+/-- `"IntervalTier"`, quotes included -/
+def iqL : List Char := "\"IntervalTier\"".toList
+def classKw : List Char := "class".toList
+
+/-- after an occurrence of `class`: ` ?= ?` and then `"IntervalTier"` -/
+def classAfter (l : List Char) : Option Unit :=
+  (headLen l).bind fun h => if iqL.isPrefixOf (l.drop h) then some () else none
+
+theorem any_eq_findSome (l : List Nat) (g : Nat → Bool) :
+    l.any g = (l.findSome? fun i => if g i then some () else none).isSome := by
+  induction l with
+  | nil => rfl
+  | cons x xs ih =>
+    simp only [List.any_cons, List.findSome?_cons, ih]
+    cases g x <;> simp
+
+/-- `re.search(r'class ?= ?"IntervalTier"', s)` at list level -/
+theorem matchClass_eq (s : Txt) : matchClass s = (scanL classKw classAfter s.toList).isSome := by
+  unfold matchClass
+  have e1 : (lit "class").toList = classKw := rfl
+  rw [any_eq_findSome, findAll_eq s _ (by decide), e1,
+    findSome_occs classKw s.toList 0 _ classAfter]
+  intro j hj hlt
+  simp only [Nat.zero_add]
+  have hst : startsAt s (lit "class") j = true := by
+    rw [startsAt_eq s _ j (by simp at hlt; omega)]; exact hj
+  rw [head_eq s _ j hst]
+  have e2 : (lit "class").size = classKw.length := rfl
+  rw [e2]
+  unfold classAfter
+  cases headLen (s.toList.drop (j + classKw.length)) with
+  | none => rfl
+  | some h =>
+    have e3 : (lit "\"IntervalTier\"").toList = iqL := rfl
+    have e4 : startsAt s (lit "\"IntervalTier\"") (h + (j + classKw.length)) =
+        iqL.isPrefixOf ((s.toList.drop (j + classKw.length)).drop h) := by
+      rw [startsAt_eq' _ _ _ (by decide), List.drop_drop, e3, Nat.add_comm h]
+    simp only [Option.map_some, e4, Option.bind_some]
+
 /-! ## the long-format reader restated on lists -/
 
 def needL (o : Option (List Char)) : Except Err (List Char) :=
@@ -710,7 +751,7 @@ def readEntryL (isI : Bool) (el : List Char) : Except Err (List String) := do
     pure [String.ofList t1, String.ofList (unescapeL (stripList lb))]
 
 def readTierL (tt : List Char) : Except Err RawTier := do
-  let isI := (findL "class = \"IntervalTier\"".toList tt).isSome
+  let isI := (scanL classKw classAfter tt).isSome
   let kw := (if isI then "intervals" else "points").toList
   let d := splitL (kw ++ [' ', '[']) (kw ++ ['[']) 0 tt []
   let hdr := d.headD []
@@ -798,12 +839,11 @@ theorem readTierLong_eq (tt : List Char) : readTierLong tt.toArray = readTierL t
   have e1 : (lit "xmin").toList = "xmin".toList := rfl
   have e2 : (lit "xmax").toList = "xmax".toList := rfl
   have e3 : (lit "name").toList = "name".toList := rfl
-  have e6 : (lit "class = \"IntervalTier\"").toList = "class = \"IntervalTier\"".toList := rfl
   have hu : ∀ nm : List Char, toStr (replace nm.toArray (lit "\"\"") (lit "\"")) = String.ofList (unescapeL nm) := by
     intro nm; unfold toStr; rw [replace_qq]
   unfold readTierLong readTierL
-  simp only [contains_eq _ _ (show 0 < (lit "class = \"IntervalTier\"").size by decide), e6, splitKw_eq]
-  generalize (findL "class = \"IntervalTier\"".toList tt).isSome = isI
+  simp only [matchClass_eq, splitKw_eq]
+  generalize (scanL classKw classAfter tt).isSome = isI
   have hk : (lit (if isI = true then "intervals" else "points")).toList = (if isI = true then "intervals" else "points").toList := rfl
   rw [hk]
   generalize splitL ((if isI = true then "intervals" else "points").toList ++ [' ', '['])
